@@ -149,7 +149,7 @@ def gen(R, n, hi, cap):
     for i in range(n):
         lo = 0.5
         # most requests moderate (the real builder costs ~1 ms per emitted move), a tail over the full range
-        r = (lo, hi) if i % (25 if R.thorough else 12) == 0 else (lo, 2.0)
+        r = (lo, hi) if i % (16 if R.thorough else 12) == 0 else (lo, 2.0)
         cases.append(tc.gen_case(R.rng, shapes[i % len(shapes)], ratio=r, max_samples=cap))
     return cases
 
@@ -157,7 +157,7 @@ def gen(R, n, hi, cap):
 def run(R: core.Run):
     R.rule = (
         "tracer requests (arc, arc_radius, circle, helix incl. constant radius, thread, spiral, spline, user parametric) each traced "
-        "at res and res/2; res = 10^U(-3,1); path/res = 10^U(0.5, 2.0), every 12th up to 10^2.7 (thorough: every 25th up to 10^4); {mm, in} with and without a unit "
+        "at res and res/2; res = 10^U(-3,1); path/res = 10^U(0.5, 2.0), every 12th up to 10^2.7 (thorough: every 16th up to 10^4); {mm, in} with and without a unit "
         "switch after set_resolution; both directions and distance modes; non-trivial = accepted and >= 4 segments; distinct by hash"
     )
     R.assumptions = [
